@@ -165,6 +165,8 @@ func runC02(c *Ctx) {
 	c.Rule("ENTROPY", "no math/rand, time.Now or multi-way select in output-producing packages outside the frozen allow-list", 1)
 	c.Rule("LOCKSET", "thread.globalParallelism is read under RLock/Lock and written under Lock", 2)
 	c.Rule("INPUT-ORDER", "values hashed into a digest do not depend on the order in which modules were listed", 1)
+	ruleOrderMatchesIdentity(c, "ORDER-TOTAL")
+	ruleArgmax(c, "ARGMAX", p.ModulePkgs(), 2)
 
 	usedTriage := map[string]bool{}
 	usedAppend := map[string]bool{}
